@@ -68,8 +68,7 @@ def call(cs, f, s):
     if op in ('s_relabel_flat', 'f_relabel_flat'):
         r = s.relabel_flat() if op == 's_relabel_flat' else f.relabel_flat(**{'index' if cs['axis'] == 0 else 'columns': True})
         ax = r.index if (op == 's_relabel_flat' or cs['axis'] == 0) else r.columns
-        other = None if op == 's_relabel_flat' else (r.columns if cs['axis'] == 0 else r.index)
-        if ax.depth != 1 or ax.__class__ not in (sf.Index, sf.IndexGO) or (other is not None and other.depth != 1):
+        if ax.depth != 1 or ax.__class__ not in (sf.Index, sf.IndexGO):
             raise AssertionError('relabel_flat left a %s of depth %d' % (ax.__class__.__name__, ax.depth))
         return r
     if op == 's_searchsorted':
